@@ -1,6 +1,7 @@
 package engine
 
 import (
+	"go/types"
 	"fmt"
 	"go/token"
 	"strings"
@@ -202,21 +203,67 @@ func runC02Mat(c *Ctx) {
 			}
 		}
 		name := fnName(fn)
+		body := fn // the function holding the emptiness test and the returns
+		var lenSite ssa.Instruction
+		if lenCall != nil {
+			lenSite = lenCall
+		}
+		if lenCall == nil {
+			// the materialisation may have been extracted into a helper that getError tail-calls
+			// with the buffer: return helper(v.errBuf)
+			for _, b := range fn.Blocks {
+				for _, ins := range b.Instrs {
+					call, ok := ins.(*ssa.Call)
+					if !ok {
+						continue
+					}
+					h := staticCallee(&call.Call)
+					if h == nil || h.Pkg != fn.Pkg || h.Object() == nil || h.Object().Exported() || len(h.Params) != 1 {
+						continue
+					}
+					if pt, ok := h.Params[0].Type().(*types.Pointer); !ok || !isNamed(pt.Elem(), "strings", "Builder") {
+						continue
+					}
+					for _, hb := range h.Blocks {
+						for _, hi := range hb.Instrs {
+							if lc, ok := hi.(*ssa.Call); ok && calleeName(&lc.Call) == "(*strings.Builder).Len" && lc.Call.Args[0] == h.Params[0] {
+								lenCall, body, lenSite = lc, h, call
+							}
+						}
+					}
+				}
+			}
+			if body != fn {
+				c.Funcs[fnName(body)] = true
+				// getError must return what the helper returns
+				okTail := false
+				for _, b := range fn.Blocks {
+					if ret, ok := b.Instrs[len(b.Instrs)-1].(*ssa.Return); ok && b != fn.Recover && len(ret.Results) == 1 {
+						if throughResultCell(ret.Results[0], b) == ssa.Value(lenSite.(*ssa.Call)) {
+							okTail = true
+						}
+					}
+				}
+				if !okTail {
+					lenCall = nil
+				}
+			}
+		}
 		if lenCall == nil {
 			c.Unk("C02-MAT", name, "empty-test", fn.Pos(), "no emptiness test of the error buffer found")
 			continue
 		}
 		if rn != nil && groupTypes[rn.Obj().Name()] {
-			ok := groupCall != nil && (groupCall.Block().Dominates(lenCall.Block()) && (groupCall.Block() != lenCall.Block() || indexIn(groupCall) < indexIn(lenCall)))
+			ok := groupCall != nil && (groupCall.Block().Dominates(lenSite.Block()) && (groupCall.Block() != lenSite.Block() || indexIn(groupCall) < indexIn(lenSite)))
 			c.Check(ok, "C02-MAT", name, "groups-first", lenCall.Pos(), "group evaluation dominates the emptiness test", "the walker registers either/botheq members but getError does not evaluate the groups before testing the buffer for emptiness: group clauses are lost")
 		}
 		// returns
-		for _, b := range fn.Blocks {
-			if !reachableBlocks(fn)[b] {
+		for _, b := range body.Blocks {
+			if !reachableBlocks(body)[b] {
 				continue
 			}
 			ret, ok := b.Instrs[len(b.Instrs)-1].(*ssa.Return)
-			if !ok || b == fn.Recover {
+			if !ok || b == body.Recover {
 				continue
 			}
 			c.Sites++
